@@ -426,7 +426,7 @@ def drop_file(path):
 # ---------------------------------------------------------------- end to end
 def run_files(ctx, n, tag):
     rng = ctx.rng
-    tmp = os.path.join(vlib.CACHE, "tmp", "c12")
+    tmp = os.path.join(vlib.CACHE, "tmp", "c12-%d" % os.getpid())
     os.makedirs(tmp, exist_ok=True)
     tables = []
     for i in range(n):
@@ -589,7 +589,7 @@ def probe_nested(ctx):
     """does the tree under check skip substreams nested in a sheet (repair of audit-2 finding XLS-2 in
     the sheet loop, which C12's model wb_sheet follows)?  On a tree without it the nested-substream
     cases are not run (the model is that commit ahead): said in the evidence."""
-    tmp = os.path.join(vlib.CACHE, "tmp", "c12")
+    tmp = os.path.join(vlib.CACHE, "tmp", "c12-%d" % os.getpid())
     os.makedirs(tmp, exist_ok=True)
     chart = BOF_CHART + biffgen.cell_records(("label", 0, 0, 0, [0x58, 0x58])) + biffgen.EOF
     wb = biffgen.workbook_stream(EMPTY_SST, [], [(0, [0x53], [("label", 0, 0, 0, [0x61]), ("raw", chart), ("label", 1, 0, 0, [0x62])])])
@@ -608,7 +608,7 @@ def run_coq_workbooks(ctx, n, tag):
     """whole workbooks written by the extracted Coq writer workbook_stream (the one the theorem
     C12_workbook_strings is about); Python only wraps the stream into a compound file"""
     rng = ctx.rng
-    tmp = os.path.join(vlib.CACHE, "tmp", "c12")
+    tmp = os.path.join(vlib.CACHE, "tmp", "c12-%d" % os.getpid())
     os.makedirs(tmp, exist_ok=True)
     lines = []
     for i in range(n):
@@ -803,7 +803,7 @@ def parse_open(ans):
 
 def run_fstring_cases(ctx, cases, tag, per_file=6):
     rng = ctx.rng
-    tmp = os.path.join(vlib.CACHE, "tmp", "c12")
+    tmp = os.path.join(vlib.CACHE, "tmp", "c12-%d" % os.getpid())
     os.makedirs(tmp, exist_ok=True)
     lines = [fstr_line("%s%d" % (tag, i), c[1], c[0], c[2], c[3]) for i, c in enumerate(cases)]
     enc = ctx.run_model(lines)
@@ -998,7 +998,7 @@ XLS1_FIXTURE = ("sheet_name_parsing.xls",
 
 def run_xls1_witnesses(ctx):
     """corpus witnesses of the former defect: run on every quick run, must satisfy the spec"""
-    tmp = os.path.join(vlib.CACHE, "tmp", "c12")
+    tmp = os.path.join(vlib.CACHE, "tmp", "c12-%d" % os.getpid())
     os.makedirs(tmp, exist_ok=True)
     il, ml, want = [], [], {}
     for cp in (1252, 932, 65001, 437, 54321, 1200, None):
@@ -1062,7 +1062,7 @@ def biff5_workbook(cp, codec, texts):
     return glob + sub, want
 
 def run_biff5_witnesses(ctx):
-    tmp = os.path.join(vlib.CACHE, "tmp", "c12")
+    tmp = os.path.join(vlib.CACHE, "tmp", "c12-%d" % os.getpid())
     os.makedirs(tmp, exist_ok=True)
     il, ml, want = [], [], {}
     for cp, codec, texts in BIFF5_TEXTS:
@@ -1183,7 +1183,7 @@ def replay(ctx, rep):
         enc = ctx.run_model([case]).get(cid, "")
         f = enc.split("#")
         print("model side:", "#".join(f[:4])[:2000])
-        tmp = os.path.join(vlib.CACHE, "tmp", "c12"); os.makedirs(tmp, exist_ok=True)
+        tmp = os.path.join(vlib.CACHE, "tmp", "c12-%d" % os.getpid()); os.makedirs(tmp, exist_ok=True)
         path = os.path.join(tmp, "replay.xls")
         open(path, "wb").write(biffgen.xls_file(bytes.fromhex(f[4])))
         impl = ctx.run_impl(["%s\tc12_open\t%s" % (cid, path)]).get(cid)
@@ -1192,7 +1192,7 @@ def replay(ctx, rep):
         enc = ctx.run_model([line]).get(cid, "")
         f = enc.split("|")
         print("model side:", "|".join(f[:4])[:2000])
-        tmp = os.path.join(vlib.CACHE, "tmp", "c12"); os.makedirs(tmp, exist_ok=True)
+        tmp = os.path.join(vlib.CACHE, "tmp", "c12-%d" % os.getpid()); os.makedirs(tmp, exist_ok=True)
         path = os.path.join(tmp, "replay.xls")
         fstr_file(path, [(0, 0, bytes.fromhex(f[4]), [] if f[5] == "-" else [bytes.fromhex(x) for x in f[5].split(",")])])
         d = parse_open(ctx.run_impl(["%s\tc12_open\t%s" % (cid, path)]).get(cid))
